@@ -134,8 +134,10 @@ impl Serialize for S {
             }
             S::Struct(fs) => {
                 let mut q = z.serialize_struct("ST", fs.len())?;
+                q.skip_field("skipped_first")?;
                 for (k, v) in fs {
                     q.serialize_field(k, v)?;
+                    q.skip_field("skipped_between")?;
                 }
                 q.end()
             }
@@ -147,10 +149,13 @@ impl Serialize for S {
                 q.end()
             }
             S::StructVariant(fs) => {
+                // a skipped field (what `#[serde(skip_serializing_if)]` emits) leaves no trace
                 let mut q = z.serialize_struct_variant("E", 3, "SV", fs.len())?;
+                q.skip_field("skipped_first")?;
                 for (k, v) in fs {
                     q.serialize_field(k, v)?;
                 }
+                q.skip_field("skipped_last")?;
                 q.end()
             }
             S::HumanReadable => {
